@@ -568,6 +568,20 @@ func (s SchemesData) appendType(d *SchemeData) SchemesData {
 	return append(s, d)
 }
 
+// AppendCred appends d to s unless s already lists a scheme that reads its
+// credential from the same payload field. The transports use these lists to
+// post-process the credential fields of a decoded payload (removal of the
+// authorization scheme prefix), which must happen once per field even when
+// several schemes of a type (e.g. two JWT schemes) share the field.
+func (s SchemesData) AppendCred(d *SchemeData) SchemesData {
+	for _, se := range s {
+		if d.CredField != "" && se.CredField == d.CredField {
+			return s
+		}
+	}
+	return s.Append(d)
+}
+
 // analyze creates the data necessary to render the code of the given service.
 // It records the user types needed by the service definition in userTypes.
 func (d ServicesData) analyze(service *expr.ServiceExpr) *Data {
